@@ -1,5 +1,7 @@
 import PygVerif.Generated
 import PygVerif.Lemmas.Doc
+import PygVerif.Lemmas.Site
+import PygVerif.Model.Serve
 /-!
 # C04 — Documents are delivered byte-for-byte with truthful length and type
 
@@ -86,6 +88,100 @@ theorem head_is_get_headers (lm : Option Str) (ct : Str) (body : Bytes) :
     httpResp .head lm ct body = httpHeaders lm ct ∧
     httpResp .get lm ct body = httpResp .head lm ct body ++ body := by
   simp [httpResp]
+
+/-! ### end to end: from the request to the bytes on the wire (`Model/Serve`)
+
+For every file tree (seen through any `st`), every configuration and every selector. -/
+
+/-- the handler chain hands a protocol a document exactly when the file handler answers the
+    selector, and then the bytes are the file's and the entry is the file's entry -/
+theorem handled_document (c : ServeCfg) (st : StatFn) (sel : Str) (e : Entry) (d : Bytes)
+    (h : handled c st sel = .document e d) :
+    dispatch c.site st sel = .file ∧ st sel = some (.file d) ∧ entryAt c.site st sel = some e := by
+  unfold handled at h
+  have menuCase : ∀ (x : Option Entry) (y : Option (List Entry)),
+      (match x, y with
+       | some self, some es => Handled.menu self es
+       | _, _ => Handled.crash) ≠ Handled.document e d := by
+    intro x y; cases x <;> cases y <;> simp
+  cases hd : dispatch c.site st sel with
+  | notFound => rw [hd] at h; cases h
+  | file =>
+    rw [hd] at h
+    simp only at h
+    cases hst : st sel with
+    | none => simp [hst] at h
+    | some n =>
+      cases n with
+      | file d' =>
+        cases he : entryAt c.site st sel with
+        | none => simp [hst, he] at h
+        | some e' => simp only [hst, he, Handled.document.injEq] at h; exact ⟨rfl, by rw [h.2], by rw [h.1]⟩
+      | dir k => simp [hst] at h
+      | other => simp [hst] at h
+  | dir => rw [hd] at h; exact absurd h (menuCase _ _)
+  | gophermapDir => rw [hd] at h; exact absurd h (menuCase _ _)
+  | gophermapFile => rw [hd] at h; exact absurd h (menuCase _ _)
+
+/-- the entry of a file served by the file handler carries the file's length -/
+theorem file_entry_size (c : SiteCfg) (st : StatFn) (sel : Str) (d : Bytes) (e : Entry)
+    (hd : dispatch c st sel = .file) (hst : st sel = some (.file d)) (he : entryAt c st sel = some e) :
+    e.size = some d.length := by
+  unfold entryAt popAt at he
+  simp only [hst, hd, Option.map_some, Option.some.injEq] at he
+  have hne : (Handler.file = Handler.gophermapFile) = False := by simp
+  simp only [hne, if_false] at he
+  rw [← he, populateWith_file_size _ _ _ _ rfl rfl rfl rfl (by simp)]
+
+/-- **Every protocol delivers the file's bytes, and nothing after them.**  When the handler chain
+    answers a selector with a document, the response of each protocol is its header text
+    followed by one piece: the bytes of the file, unchanged. -/
+theorem document_bytes_every_protocol (c : ServeCfg) (st : StatFn) (rq : Parsed) (e : Entry) (d : Bytes)
+    (hh : handled c st rq.selector = .document e d) (hi : rq.geminiInput = none) (hb : rq.badRequest = false) :
+    respondParsed c st .gopher rq = some [.bytes d] ∧
+    respondParsed c st .sgopher rq = some [.bytes d] ∧
+    respondParsed c st .gemini rq = some [.text (statusLine (lit "20") (geminiAdjust e.mimetype)), .bytes d] ∧
+    respondParsed c st .spartan rq = some [.text (statusLine (lit "2") (geminiAdjust e.mimetype)), .bytes d] ∧
+    (rq.head = false → respondParsed c st .http rq = some [.text (httpHeaders none (httpAdjust e.mimetype)), .bytes d]) ∧
+    (rq.head = true → respondParsed c st .http rq = some [.text (httpHeaders none (httpAdjust e.mimetype))]) := by
+  simp [respondParsed, hh, hi, hb, Wire.ofProto]
+
+/-- **Gopher+ `+` and `$` on a document: truthful length, then the bytes.**  The status line
+    carries the file's exact length and the body read back from the response is the file. -/
+theorem gplus_document_end_to_end (c : ServeCfg) (st : StatFn) (rq : Parsed) (e : Entry) (d : Bytes) (g : Str)
+    (hh : handled c st rq.selector = .document e d) (hi : rq.geminiInput = none) (hb : rq.badRequest = false)
+    (hg : rq.gplus = some g) (hne : (g == lit "!") = false) :
+    ∃ ps, respondParsed c st .gopherp rq = some ps ∧ flattenPieces ps = gplusDoc (some d.length) d ∧
+      splitCrlf (flattenPieces ps) = (43 :: toDec d.length, d) := by
+  obtain ⟨hd, hst, he⟩ := handled_document c st rq.selector e d hh
+  have hsz := file_entry_size c.site st rq.selector d e hd hst he
+  refine ⟨[.text ([43] ++ toDec d.length ++ [13, 10]), .bytes d], ?_, ?_, ?_⟩
+  · simp [respondParsed, hh, hi, hb, Wire.ofProto, hg, hne, hsz]
+  · simp [flattenPieces, Piece.raw, gplusDoc]
+  · have := gplus_length d
+    rw [copy_is_identity] at this
+    simpa [flattenPieces, Piece.raw, gplusDoc] using this
+
+/-- HTTP HEAD is the GET response without its body piece -/
+theorem head_end_to_end (c : ServeCfg) (st : StatFn) (rq : Parsed) (ps : List Piece)
+    (h : respondParsed c st .http { rq with head := true } = some ps) :
+    ∃ qs, respondParsed c st .http { rq with head := false } = some qs ∧
+      flattenPieces ps <+: flattenPieces qs := by
+  unfold respondParsed at h ⊢
+  simp only at h ⊢
+  split at h
+  · cases h
+  · rename_i hcond
+    simp only [hcond, if_false]
+    simp only [Wire.ofProto] at h ⊢
+    cases hh : handled c st rq.selector with
+    | notFound m => simp only [hh] at h ⊢; exact ⟨_, rfl, by cases h; exact List.prefix_refl _⟩
+    | document e d =>
+      simp only [hh, if_true, Bool.false_eq_true, if_false] at h ⊢
+      cases h
+      exact ⟨_, rfl, by simp [flattenPieces, Piece.raw]⟩
+    | menu s es => simp [hh] at h
+    | crash => simp [hh] at h
 
 /-! ### WAP text conversion is losslessly invertible line by line -/
 
